@@ -5,6 +5,8 @@ import (
 	"strings"
 
 	"mcrt"
+
+	"github.com/mattn/go-runewidth"
 )
 
 // C12: width-synchronised decorators line up in every frame.
@@ -83,8 +85,14 @@ func c12Oracle(sp *Spec, x *X, res *mcrt.Result) (string, string) {
 		// a decorator is cut (ellipsis) only when the decorators of its row really exceed the container width
 		if sp.Width > 0 && !f.Err {
 			for _, r := range f.Rows {
-				if r.Ext == -1 && r.Bar >= 0 && used[r.Bar] > 0 && used[r.Bar] <= sp.Width && strings.Contains(r.Raw, "…") {
+				if r.Ext != -1 || r.Bar < 0 || used[r.Bar] == 0 || used[r.Bar] > sp.Width {
+					continue
+				}
+				if strings.Contains(r.Raw, "…") {
 					return "decorator-truncated", fmt.Sprintf("frame %d: the decorators of bar %d take %d of %d columns, yet one is cut: %q", fi, r.Bar, used[r.Bar], sp.Width, r.Raw)
+				}
+				if w := runewidth.StringWidth(strings.TrimRight(r.Raw, "\n")); w < used[r.Bar] {
+					return "decorator-dropped", fmt.Sprintf("frame %d: the decorators of bar %d returned %d columns (container %d), the row has only %d: %q", fi, r.Bar, used[r.Bar], sp.Width, w, r.Raw)
 				}
 			}
 		}
